@@ -89,7 +89,20 @@ class GarbageCollector:
         # deleted right after they became referenced.
         protected_files = self._load_inflight_protection(inflight_timeout_ms)
 
-        # 1. Refresh metadata to get latest view
+        # 1. Refresh metadata to get latest view. refresh() treats the version
+        # hint as a hint and silently falls back to the newest metadata file it
+        # can find when the hinted one is missing - fine for opening a table,
+        # not for deleting: an OLDER version does not reference the files of
+        # newer commits, which would all look like orphans. If the hint names a
+        # version whose file is gone, the table's true state is unknown here.
+        hinted = self.metadata_manager._read_version_hint()
+        if hinted is not None and not self.storage.exists(
+            f"{self.metadata_manager.metadata_path}/{hinted[1]}"
+        ):
+            raise GarbageCollectionAborted(
+                f"Aborting GC: the version hint names {hinted[1]}, which does not exist. "
+                f"Reachability cannot be determined. Nothing was deleted."
+            )
         metadata = self.metadata_manager.refresh()
         if not metadata:
             return stats
